@@ -44,6 +44,7 @@ def dispatch (line : String) : String :=
     | "client" => ClientOp.clientOp args
     | "tls" => C06.tlsOp args
     | "pool" => PoolOp.poolOp args
+    | "wstall" => PoolOp.wstallOp args
     | "transports" => C18.transportsOp args
     | "body" => C10.bodyOp args
     | "hval" => C02.hvalOp false args
